@@ -893,6 +893,11 @@ impl Harness for Scenario {
 }
 
 fn run_plan(prop: &str, tier: Tier, rule: &str, assumptions: Vec<String>, goals: &[&str], plan: Vec<(&str, ScenCfg, u32)>) -> i32 {
+    run_plan_with(prop, tier, rule, assumptions, goals, plan, None)
+}
+
+/// `child`: (binary, subcommand, phase name, goals it must meet) of a phase another binary runs.
+fn run_plan_with(prop: &str, tier: Tier, rule: &str, assumptions: Vec<String>, goals: &[&str], plan: Vec<(&str, ScenCfg, u32)>, child: Option<(&str, &str, &str, &[&str])>) -> i32 {
     let mut rep = Report::new(prop, tier.name());
     rep.rule = rule.to_string();
     rep.assumptions = assumptions;
@@ -904,6 +909,14 @@ fn run_plan(prop: &str, tier: Tier, rule: &str, assumptions: Vec<String>, goals:
         let c = Config { budget, max_wall: wall, ..Default::default() };
         let h = Scenario(cfg);
         rep.add(explore(name, h.0.to_json(), &h, &c));
+    }
+    if let Some((bin, sub, phase, child_goals)) = child {
+        for g in child_goals {
+            rep.require_goal(g);
+        }
+        if let Err(code) = crate::common::child_phase_bin(&mut rep, "main", bin, sub, tier, phase) {
+            return code;
+        }
     }
     rep.finish()
 }
@@ -1013,17 +1026,22 @@ pub fn run_c10(tier: Tier) -> i32 {
     plan.push(("3conns/streaming-calls-only/8-9events", mk3(tier.pick(8, 9)), 0));
     let mut a = base_assumptions();
     a.push("stream items are produced by driver events once the service has opened the stream; a stream's last item carries continues=false when the stream then ends, continues=true when it stays open".into());
-    run_plan(
+    a.push("in the notified-state phases (child process `sockets c10-child`) the service's reply streams are the library's own notified::State / notified::Once of zlink-tokio and zlink-smol: a subscriber may skip values but gets them in order, marked continues, and has the latest one once the server is idle; callers of Set / Get / Once get exactly their replies whatever the subscribers do".into());
+    run_plan_with(
         "C10",
         tier,
         RULE,
         a,
         &["stream-item", "non-final-item-flagged-continues-false", "stream-ends", "calls-pipelined-behind-streaming-call", "stream-ends-with-calls-queued-behind", "other-client-calls-while-stream-open", "calls-arrive-while-stream-open", "client-unwritable-mid-stream"],
         plan,
+        Some(("sockets", "c10-child", "notified-state-service/tokio+smol(child)", &["burst-of-state-changes-while-subscribed", "subscriber-got-the-latest-value", "one-shot-stream"])),
     )
 }
 
 pub fn replay(v: &Value) -> Replayed {
+    if let Some(r) = crate::common::replay_child(v) {
+        return r;
+    }
     match ScenCfg::from_json(&v["harness"]) {
         Some(c) => replay_dfs(&Scenario(c), v),
         None => Replayed::Error("cannot rebuild the server scenario from the replay file".into()),
